@@ -6,7 +6,8 @@ Import ListNotations.
 Local Open Scope N_scope.
 
 Definition utf8_of (c : N) : list N :=
-  if c <? 128 then [c]
+  if 1114112 <=? c then [(c - 1114112) mod 256]          (* a byte of a string that is not valid UTF-8 *)
+  else if c <? 128 then [c]
   else if c <? 2048 then [192 + c / 64; 128 + c mod 64]
   else if c <? 65536 then [224 + c / 4096; 128 + (c / 64) mod 64; 128 + c mod 64]
   else [240 + c / 262144; 128 + (c / 4096) mod 64; 128 + (c / 64) mod 64; 128 + c mod 64].
